@@ -43,10 +43,14 @@ MaxVer(S, m) == LET vs == {Rank(n) : n \in {x \in S : x[1] = m}} IN
 
 WantOf(f) == [m \in Mods |-> MaxVer(Reach({Target}, f, Cardinality(Nodes)), m)]
 
+\* The module loader (internal/mod/modrequirements) reads a *pruned* graph: the main module's roots and
+\* the requirements of those roots, nothing deeper.  Its selection is the maximum over that part.
+WantPrunedOf(f) == [m \in Mods |-> MaxVer(Reach({Target}, f, 2), m)]
+
 \* unreachable nodes do not matter: keep their lists empty so each graph appears once
 
-VARIABLES req, want, todo, done, selected
-vars == <<req, want, todo, done, selected>>
+VARIABLES req, want, want1, todo, done, selected
+vars == <<req, want, want1, todo, done, selected>>
 
 Normalise(f) == [n \in Nodes |->
    LET a == f[n] \cap Allowed(n) IN
@@ -63,6 +67,7 @@ Init ==
   /\ IF Sample = 0 THEN req = Empty
      ELSE req \in {Prune(Normalise(f)) : f \in RandomSubset(Sample, [Nodes -> SUBSET Older])}
   /\ want = IF Sample = 0 THEN [m \in Mods |-> None] ELSE WantOf(req)
+  /\ want1 = IF Sample = 0 THEN [m \in Mods |-> None] ELSE WantPrunedOf(req)
   /\ todo = {Target} /\ done = {}
   /\ selected = [m \in Mods |-> IF m = 1 THEN Rank(Target) ELSE None]
 
@@ -76,6 +81,7 @@ Visit(n) ==
   /\ selected' = [m \in Mods |-> Max2(selected[m], MaxVer(req'[n], m))]
   /\ todo' = (todo \cup req'[n]) \ done'
   /\ want' = IF todo' = {} THEN WantOf(req') ELSE want
+  /\ want1' = IF todo' = {} THEN WantPrunedOf(req') ELSE want1
 
 Next == \E n \in todo : Visit(n)
 Spec == Init /\ [][Next]_vars
@@ -88,5 +94,7 @@ SelectedIsMaxSeen == \A m \in Mods : selected[m] = MaxVer(Seen, m)
 Confluent == todo = {} => (selected = want /\ done = Reach({Target}, req, Cardinality(Nodes)))
 \* sufficiency and minimality spelled out
 Sufficient == todo = {} => \A n \in done : \A x \in req[n] : selected[x[1]] >= Rank(x)
+\* the pruned selection never exceeds the full one
+PrunedBelowFull == todo = {} => \A m \in Mods : want1[m] <= want[m]
 Minimal == todo = {} => \A m \in Mods : selected[m] = None \/ \E n \in done \cup {Target} : n[1] = m /\ Rank(n) = selected[m]
 =============================================================================
